@@ -11,7 +11,7 @@ namespace vf {
 bool run_case(const std::string &text, std::string &sig, bool &nontrivial) {
   // the property under check is named by the first comment-free line "prop Cxx" if present, else by the mode
   std::string prop = g_prop; { size_t p = text.find("prop "); if (p == 0 || (p != std::string::npos && text[p - 1] == '\n')) prop = text.substr(p + 5, 3); }
-  sim::Scenario sc; sim::RunResult r = sc.run(text, prop);
+  sim::RunResult r = sim::run_prop(text, prop);
   for (auto &kv : r.counters) stats().count(kv.first, kv.second);
   nontrivial = r.nontrivial;
   if (!r.v.ok) { sig = r.v.sig; if (!r.v.detail.empty()) msg("DETAIL %s\n", r.v.detail.substr(0, 1500).c_str()); return false; }
